@@ -309,20 +309,63 @@ func e2e(id string, seed uint64) runner.Result {
 	want := map[uint64]map[string]string{}
 	var fails []string
 	var desc []string
+	// one map object that the application keeps and attaches to several calls
+	shared := genMap(r)
+	for len(shared) == 0 {
+		shared = genMap(r)
+	}
+	sharedCopy := map[string]string{}
+	for k, v := range shared {
+		sharedCopy[k] = v
+	}
 	for i := 0; i < ncalls; i++ {
 		tag := uint64(i + 1)
 		ctx := context.Background()
 		var md map[string]string
+		style := "none"
 		if r.Intn(3) != 0 {
 			md = genMap(r)
-			for k, v := range md {
-				ctx = drpcmetadata.Add(ctx, k, v)
+			switch r.Intn(4) {
+			case 0:
+				style = "Add"
+				for k, v := range md {
+					ctx = drpcmetadata.Add(ctx, k, v)
+				}
+			case 1:
+				style = "AddPairs"
+				ctx = drpcmetadata.AddPairs(ctx, md)
+			case 2:
+				// the application's own long-lived map plus per-call pairs
+				style = "AddPairs(shared)+Add"
+				ctx = drpcmetadata.AddPairs(ctx, shared)
+				all := map[string]string{}
+				for k, v := range sharedCopy {
+					all[k] = v
+				}
+				for k, v := range md {
+					ctx = drpcmetadata.Add(ctx, k, v)
+					all[k] = v
+				}
+				md = all
+			default:
+				// the application changes its map after it attached it: the call carries what was attached
+				style = "AddPairs-then-modify"
+				mine := map[string]string{}
+				for k, v := range md {
+					mine[k] = v
+				}
+				ctx = drpcmetadata.AddPairs(ctx, mine)
+				mine["changed-after-attach"] = "x"
+				for k := range md {
+					mine[k] = "overwritten"
+					break
+				}
 			}
 		}
 		want[tag] = md
 		in := payload.Make(tag, 0, 0, 0, r.Intn(100))
 		stream := r.Intn(2) == 0
-		desc = append(desc, fmt.Sprintf("call%d(md=%d,stream=%v)", tag, len(md), stream))
+		desc = append(desc, fmt.Sprintf("call%d(md=%d via %s,stream=%v)", tag, len(md), style, stream))
 		var op *rig.Op
 		if stream {
 			op = rig.Go("stream", func() (interface{}, error) {
@@ -364,6 +407,9 @@ func e2e(id string, seed uint64) runner.Result {
 		} else if md != nil && !eqMap(md, s.md) {
 			fails = append(fails, fmt.Sprintf("call %d attached %s, handler saw %s", tag, summarize(md), summarize(s.md)))
 		}
+	}
+	if !eqMap(shared, sharedCopy) {
+		fails = append(fails, fmt.Sprintf("the application's own map, attached with AddPairs to several calls, was modified by the library: now %s, was %s", summarize(shared), summarize(sharedCopy)))
 	}
 	if len(fails) > 0 {
 		return runner.Violation(id, "metadata-e2e", strings.Join(desc, " ")+"\n"+strings.Join(fails, "\n"))
